@@ -18,7 +18,7 @@ pub fn property() -> Property {
     Property {
         id: "C16",
         level: "exploration",
-        rule: "Random operation sequences (<= 25 ops, values from small domains so that collisions are frequent) over {new session, clone session, every session setter, header/header_append with colliding names in mixed case, create a builder with each method, every builder setter, headers_mut, prepare, send} are executed in lock-step on the real objects and on a value model in which a builder copies its session's values at creation and nothing flows back or sideways. After EVERY operation the guarded settings snapshot (hook H4) of EVERY live session/builder must equal its model; every send is observed on the wire with one probe: header probe (all header fields sent vs model incl. Accept/User-Agent defaults and Accept-Encoding iff compression allowed), redirect probe (endless 302: number of requests == max_redirections+1, or 1 when following is off), header-limit probe (exactly max_headers fields accepted, max_headers+1 refused), proxy probe (address dialled), plus the timeouts / TLS flags / root count handed to the connector (DialRequest). In the threads generator the objects are then distributed over 2..8 barrier-started threads that keep operating on their own clones and sending concurrently; each thread checks its objects against its own copy of the model and the parent checks that the originals did not change. Non-trivial: sequence contains >= 1 send and >= 2 live objects; distinct = hash(op sequence).",
+        rule: "Random operation sequences (<= 25 ops, values from small domains so that collisions are frequent) over {new session, clone session, every session setter, header/header_append with colliding names in mixed case, create a builder with each method, every builder setter, headers_mut, prepare, send} are executed in lock-step on the real objects and on a value model in which a builder copies its session's values at creation and nothing flows back or sideways. After EVERY operation the guarded settings snapshot (hook H4) of EVERY live session/builder must equal its model; every send is observed on the wire with one probe: header probe (all header fields sent vs model incl. Accept/User-Agent defaults and Accept-Encoding iff compression allowed), redirect probe (endless 302: number of requests == max_redirections+1, or 1 when following is off), (every third header probe is preceded by a send of an unrelated session that fails while its request is being written: nothing of it may appear on the probed request's connection), header-limit probe (exactly max_headers fields accepted, max_headers+1 refused), proxy probe (address dialled), plus the timeouts / TLS flags / root count handed to the connector (DialRequest). In the threads generator the objects are then distributed over 2..8 barrier-started threads that keep operating on their own clones and sending concurrently; each thread checks its objects against its own copy of the model and the parent checks that the originals did not change. Non-trivial: sequence contains >= 1 send and >= 2 live objects; distinct = hash(op sequence).",
         assumptions: &["root certificates are counted, not compared", "thread schedules are whatever the OS produces (Miri adds randomised schedules in the thorough tier when available)"],
         min_nontrivial: |t| t.pick(2_000, 60_000),
         gens,
@@ -290,6 +290,16 @@ fn send_with_probe(rb: RequestBuilder, ro_m: &Settings, headers: &BTreeMap<Strin
     match probe % 4 {
         0 => {
             counters.push("probe_headers");
+            if (probe / 4) % 3 == 0 {
+                // a request of an unrelated session fails while it is being written on this
+                // thread: nothing of it may show up in what the probed request puts on the wire
+                counters.push("probe_headers_after_a_failed_foreign_send");
+                let at = 10 + (probe / 12 % 400) as usize;
+                let _w = World::install(move |_, _, _| Answer::Script(vec![Step::Data(c07::OK_RESPONSE.to_vec())], WriteFaults { short: vec![], fail_at: Some((at, std::io::ErrorKind::BrokenPipe)), interrupt_every: 0 }));
+                let mut foreign = Session::new();
+                foreign.header("X-Foreign-Key", "FOREIGN-MARKER");
+                let _ = foreign.post("http://foreign.test/f").bytes(vec![b'f'; 9000]).send();
+            }
             let world = World::install(|_, _, _| Answer::Script(vec![Step::Data(c07::OK_RESPONSE.to_vec())], WriteFaults::default()));
             let res = rb.send();
             if res.is_err() || world.dial_count() != 1 {
